@@ -12,3 +12,32 @@ def c14_array_form_over_int64(site, w):
         return False
     exp, got = w["expected"], w["got"]
     return max(exp) >= 2**63 and all(int(float(e)) == int(g) for e, g in zip(exp, got))
+
+
+def _vals(x):
+    """witness scalar (real: dict, complex: [dict, dict]) -> tuple of python floats"""
+    if isinstance(x, list):
+        return tuple(_unfl(v) for v in x)
+    return (_unfl(x),)
+
+
+def c03_odd_zero_sign(site, w):
+    """oddness f(-z) == -f(z) fails only in the sign of a zero-valued output component, at an input with a zero component
+    (off the branch cut): the final `select(signed_component < 0, -v, v)` cannot see the sign of a zero."""
+    if not (site.startswith("odd") and site.endswith(":zero-sign-only")):
+        return False
+    if not w.get("zero_component"):
+        return False
+    z = _vals(w["z"])
+    if not any(v == 0 for v in z):
+        return False
+    lhs, rhs = _vals(w["lhs"]), _vals(w["rhs"])
+    differs_somewhere = False
+    for a, b in zip(lhs, rhs):
+        if a != a and b != b:
+            continue
+        if a != b:
+            return False  # values differ: not this mechanism
+        if a == 0 and str(a) != str(b):
+            differs_somewhere = True
+    return differs_somewhere
